@@ -5,6 +5,7 @@ pub mod c02;
 pub mod c02_e2e;
 pub mod c03;
 pub mod c04;
+pub mod c05;
 pub mod c06;
 pub mod c07;
 pub mod c09;
@@ -31,6 +32,7 @@ pub fn dispatch(ctx: &Ctx) -> Option<Outcome> {
         },
         "C03" => c03::run(ctx),
         "C04" => c04::run(ctx),
+        "C05" => c05::run(ctx),
         "C06" => c06::run(ctx),
         "C07" => c07::run(ctx),
         "C09" => c09::run(ctx),
